@@ -26,7 +26,7 @@ RULE = ('histories of 6-16 (thorough 8-25) operations from {save, load, list all
         'thorough 9000; distinct by history; non-trivial when a load followed a save and progress of the same key')
 ASSUMPTIONS = ['exception classes are not compared (KeyError vs FileNotFoundError are both "raises")', 'listings compared as sets',
                'bundles compared structurally (exceptions by type and args)']
-REQUIRED = ['failed_saves', 'failed_overwrites', 'ops/save', 'ops/load', 'ops/list', 'ops/listp', 'ops/del', 'ops/delp', 'ops/progress', 'ops/loadrun', 'loads_compared', 'loads_after_progress',
+REQUIRED = ['saves_compared_with_live', 'failed_saves', 'failed_overwrites', 'ops/save', 'ops/load', 'ops/list', 'ops/listp', 'ops/del', 'ops/delp', 'ops/progress', 'ops/loadrun', 'loads_compared', 'loads_after_progress',
             'absent_loads', 'overwrites', 'pidkind/int', 'pidkind/uuid', 'pidkind/str']
 BOUNDS = {'quick': '900 histories of 6-16 ops', 'thorough': '9000 histories of 8-25 ops'}
 
@@ -52,7 +52,7 @@ S = programs.step
 PROGRAM = {'steps': [S(['wait', 'w0', None], sync=True), S(['cont', [[1, 2]], {}], yields=1), S(['wait', 'w1', {'d': 1}], sync=True),
                      S(['value', 9], sync=True)]}
 PIDS = {'int': [1, 10, 12], 'uuid': [uuid.UUID(int=7), uuid.UUID(int=8), uuid.UUID(int=9)], 'str': ['job', 'job2', 'a']}
-TAGS = {'int': [None, 1, 2], 'uuid': [None, uuid.UUID(int=77)], 'str': [None, 't', 'tt', 'job']}
+TAGS = {'int': [None, 1, 2, 0], 'uuid': [None, uuid.UUID(int=77)], 'str': [None, 't', 'tt', 'job', '']}
 OPS = ['save'] * 5 + ['load'] * 5 + ['progress'] * 4 + ['list', 'listp', 'del', 'delp', 'loadrun', 'loadrun', 'badsave']
 
 
@@ -146,6 +146,12 @@ def run_case(case):
                         break
                     if key in model:
                         obs['overwrites'] += 1
+                    # the snapshot is the process as it is *now* (read through the accessors, independently of the bundle)
+                    live = {'INPUTS_RAW': proc.raw_inputs, 'INPUTS_PARSED': proc.inputs, 'OUTPUTS': proc.outputs}
+                    for bkey, value in live.items():
+                        if bkey in snap and value is not None and snap[bkey] != norm(value):
+                            viol.append(V('save-stale', 'save-stale:%s' % bkey, '%s: the saved state holds %s %r, the process has %r' % (ctx, bkey, snap[bkey], norm(value))))
+                    obs['saves_compared_with_live'] = obs.get('saves_compared_with_live', 0) + 1
                     model[key] = snap
                     progressed_since_save[key] = False
                 elif op == 'badsave':
